@@ -362,8 +362,8 @@ def run_case(case, workdir):
     for m_ in (positions[len(positions) // 4], positions[len(positions) // 2]):
         for limit, serial in ((None, False), (0, True)):
             out = os.path.join(workdir, "cli_out")
-            argv = ["mandoline", path, "-f", "array", "-o", out, "-V", "0", "-n", str(n), "-p", repr(sm.pos_of(m_)), "-v", "G", "A", "grid_level"] \
-                + (["-L", str(limit)] if limit is not None else []) + (["-s"] if serial else [])
+            argv = ["mandoline", path, "-f", "array", "-o", out, "-n", str(n), "-p", repr(sm.pos_of(m_)), "-v", "G", "A", "grid_level"] \
+                + (["-L", str(limit)] if limit is not None else []) + (["-s", "-V", "0"] if serial else [])       # default verbosity in parallel mode
             with vpool.controlled():
                 with poisoned(MODS, 0):
                     st, val = run_cli(mcli.main, argv)
